@@ -40,11 +40,11 @@ def parseOperand (t : String) : Option Operand :=
   | ["r", a, b] => match a.toNat?, b.toNat? with
     | some a, some b => some (.reg a b)
     | _, _ => none
-  | ["m", sz, bt, bi, it, ii, _sh, off, seg, bc] =>
-    match sz.toNat?, bt.toNat?, bi.toNat?, it.toNat?, ii.toNat?, off.toInt?, seg.toNat?, bc.toNat? with
-    | some sz, some bt, some bi, some it, some ii, some off, some seg, some bc =>
-      some (.mem sz bt bi it ii (off % 0x10000000000000000).toNat seg bc)
-    | _, _, _, _, _, _, _, _ => none
+  | ["m", sz, bt, bi, it, ii, sh, off, seg, bc] =>
+    match sz.toNat?, bt.toNat?, bi.toNat?, it.toNat?, ii.toNat?, sh.toNat?, off.toInt?, seg.toNat?, bc.toNat? with
+    | some sz, some bt, some bi, some it, some ii, some sh, some off, some seg, some bc =>
+      some (.mem sz bt bi it ii sh (off % 0x10000000000000000).toNat seg bc)
+    | _, _, _, _, _, _, _, _, _ => none
   | _ => none
 
 def parseInst (ws : List String) : Option (Inst × List Operand) :=
@@ -98,7 +98,7 @@ def step (_ : Unit) (line : String) : Unit × String :=
     match id.toNat?, r.toNat? with
     | some id, some r =>
       if roundTripOk (namesOf arch) id r then "good"
-      else if !spanOk (tablesOf arch) (namesOf arch) (letterOf (namesOf arch) id) then "BAD unsorted-span"
+      else if !spanOk (tablesOf arch) (posNames (tablesOf arch) (namesOf arch)) (letterOf (namesOf arch) id) then "BAD unsorted-span"
       else "BAD name-round-trip"
     | _, _ => "bad-op"
   | ["mon_dbname", h] =>
@@ -110,7 +110,7 @@ def step (_ : Unit) (line : String) : Unit × String :=
     match bytesOf? h, r.toNat? with
     | some s, some r =>
       if lookupOk arch s r then "good"
-      else if r == 0 && !spanOk (tablesOf arch) (namesOf arch) (match s with | c :: _ => c - 97 | [] => 26) then "BAD unsorted-span"
+      else if r == 0 && !spanOk (tablesOf arch) (posNames (tablesOf arch) (namesOf arch)) (match s with | c :: _ => c - 97 | [] => 26) then "BAD unsorted-span"
       else "BAD lookup"
     | _, _ => "bad-op"
   | ["mon_inst", exp, v, e0, e1] =>
